@@ -117,13 +117,18 @@ func c04EndToEnd(c *fw.Ctx, r *rand.Rand, nInputs int) {
 	g.ExpectSR, g.ExpectRR = 0, 0
 	files := reflalr.Files(g)
 	optimized := r.Intn(3) == 0
+	defaultReduce := optimized && r.Intn(2) == 0
 	var t *lalr.Tables
-	if !c.Guard("compile", files, func() { t, _ = lalr.Compile(g, lalr.Options{Optimize: optimized}) }) {
+	if !c.Guard("compile", files, func() { t, _ = lalr.Compile(g, lalr.Options{Optimize: optimized, DefaultReduce: defaultReduce}) }) {
 		return
 	}
 	c.Count("e2e_grammars", 1)
 	if optimized {
 		c.Count("e2e_grammars_run_on_optimized_encoding", 1)
+	}
+	if defaultReduce {
+		// default reductions may only delay an error, never move it to another token
+		c.Count("e2e_grammars_run_with_default_reduce", 1)
 	}
 	if x.Undecl > 0 {
 		c.Count("e2e_grammars_with_undeclared_operators", 1)
@@ -220,8 +225,8 @@ func c04EndToEnd(c *fw.Ctx, r *rand.Rand, nInputs int) {
 func init() {
 	fw.Register(&fw.Check{
 		ID: "C04",
-		Rule: "each case: (a) a batch of random small lalr.Grammar values with 1-3 precedence groups (random associativity, some terminals left undeclared, ~1/6 of the rules with a %prec terminal) plus operator grammars, compiled by lalr.Compile and compared cell by cell with reference LALR(1) candidates resolved by the documented rule (higher wins; equal: left=reduce, right=shift, nonassoc=error; undecidable=conflict, shift; reduce/reduce=earlier rule), conflict counts within the bounds the statement fixes; " +
-			"(b) operator grammars E: E b E | p E [%prec] | E q | ( E ) | atom [; S: E | S ';' E] with 1-8 binary, 0-3 prefix (some shared with binary operators), 0-2 postfix operators in 1-5 groups of mixed associativity, occasionally undeclared operators: the tables are interpreted as the generated parser does (default encoding, one third through the displacement encoding) on random expressions, single-operator chains, nonassoc chains a<b<c and mutated inputs; accept/reject, the error token index and the full parse tree are compared with an operator-precedence (precedence climbing) reference. " +
+		Rule: "each case: (a) a batch of random small lalr.Grammar values with 1-3 precedence groups (random associativity, some terminals left undeclared, ~1/6 of the rules with a %prec terminal) plus operator grammars and a family with exactly one cell holding a shift and 2-4 reductions that all lose against the shift by precedence (lower group or same %right group, some through %prec; the exact counts 0/0 are demanded), compiled by lalr.Compile and compared cell by cell with reference LALR(1) candidates resolved by the documented rule (higher wins; equal: left=reduce, right=shift, nonassoc=error; undecidable=conflict, shift; reduce/reduce=earlier rule), conflict counts within the bounds the statement fixes; " +
+			"(b) operator grammars E: E b E | p E [%prec] | E q | ( E ) | atom [; S: E | S ';' E] with 1-8 binary, 0-3 prefix (some shared with binary operators), 0-2 postfix operators in 1-5 groups of mixed associativity, occasionally undeclared operators: the tables are interpreted as the generated parser does (default encoding, one third through the displacement encoding, half of those with DefaultReduce) on random expressions, single-operator chains, nonassoc chains a<b<c and mutated inputs; accept/reject, the error token index and the full parse tree are compared with an operator-precedence (precedence climbing) reference. " +
 			"A table-level grammar is non-trivial when >= 1 cell is decided by precedence and it has >= 6 states; an operator grammar when both accepted and rejected inputs were observed; distinctness by grammar text",
 		Assumptions: []string{
 			"reference LALR(1) construction (as in C03) and the documented resolution rule implemented in reflalr.PrecTable",
@@ -252,6 +257,12 @@ func init() {
 					c04TableOne(c, x.G, r, "operator")
 					continue
 				}
+				if i%10 == 3 {
+					// one cell with a shift and several reductions that all lose by precedence:
+					// no conflict may be counted (exact counts, no other ambiguity in the grammar)
+					c04TableOne(c, reflalr.AllShiftGrammar(r), r, "all_shift_family")
+					continue
+				}
 				cfg := reflalr.SmallConfig()
 				cfg.Prec = true
 				cfg.Markers = r.Intn(3) == 0
@@ -271,6 +282,6 @@ func init() {
 		},
 		RequiredCounters: []string{"cells_resolved_as_shift", "cells_resolved_as_reduce", "cells_resolved_as_nonassoc_error", "cells_undecidable_default_shift",
 			"cells_reduce_reduce_default_earlier_rule", "cells_shift_and_several_reductions_mixed", "table_grammars_with_prec_marker", "e2e_inputs_accepted", "e2e_inputs_rejected",
-			"e2e_nonassoc_chains", "e2e_grammars_with_unary_prec", "e2e_grammars_with_prefix_operators", "e2e_grammars_with_postfix_operators", "e2e_grammars_with_undeclared_operators", "e2e_grammars_run_on_optimized_encoding"},
+			"e2e_nonassoc_chains", "e2e_grammars_with_unary_prec", "e2e_grammars_with_prefix_operators", "e2e_grammars_with_postfix_operators", "e2e_grammars_with_undeclared_operators", "e2e_grammars_run_on_optimized_encoding", "e2e_grammars_run_with_default_reduce", "table_grammars_all_shift_family", "cells_shift_and_several_reductions_all_shift"},
 	})
 }
